@@ -100,6 +100,12 @@ def box_corners(l, r, b, t, n, f, depth, persp):
             if persp: out.append(('far-%s%s' % (sxn, syn), X * f / n, Y * f / n, f, ex_, ey_, 1))
             else: out.append(('far-%s%s' % (sxn, syn), X, Y, f, ex_, ey_, 1))
     return out
+def wrong_twin(spec):
+    """mutant twin: the same specification with the near and far clip depths exchanged must be refutable"""
+    def m(i, o):
+        g = dict(spec(i, o)); a = g['near-lb.z']; b = g['far-lb.z'] if 'far-lb.z' in g else g['depth-d.z-form']
+        return [('near-z-as-far', RGoal('eq', a.l, a.r + (b.r - a.r if 'far-lb.z' in g else 1)))]
+    return m
 def trig_pos(res):
     """all angles passed to tan/sin/cos here are fovy/2 with 0 < fovy < pi: the functions are positive"""
     return [v > 0 for (v, a) in getattr(res.ex, 'trig', {}).values()]
@@ -166,7 +172,7 @@ def job_persp(t, vs):
             def spec(i, o, hand=hand, depth=depth):
                 fovy, asp, n, f = i[0]; T = rv(o[1][0]); top = n * T; right = top * asp
                 return corner_goals(o[0], box_corners(-right, right, -top, top, n, f, depth, True), hand)
-            S.check_fn(U, 'perspective%s_%s' % (v, t), spec, pre_persp_ne(c), mode='real', extra_hyps=trig_pos, bounds='aspect>0, aspect != epsilon (see ' + KF_ASSERT + '), 0<near<far, tan(fovy/2)>0')
+            S.check_fn(U, 'perspective%s_%s' % (v, t), spec, pre_persp_ne(c), mode='real', extra_hyps=trig_pos, mutant=wrong_twin(spec), bounds='aspect>0, aspect != epsilon (see ' + KF_ASSERT + '), 0<near<far, tan(fovy/2)>0')
     return run
 def job_fov(t, vs):
     def run(S):
@@ -175,7 +181,7 @@ def job_fov(t, vs):
             def spec(i, o, hand=hand, depth=depth):
                 fov, w, h, n, f = i[0]; T = rv(o[1][0]); top = n * T; right = top * w / h
                 return corner_goals(o[0], box_corners(-right, right, -top, top, n, f, depth, True), hand)
-            S.check_fn(U, 'perspectiveFov%s_%s' % (v, t), spec, pre_fov, mode='real', extra_hyps=trig_pos, bounds='fov>0, width>0, height>0, 0<near<far, sin,cos,tan(fov/2)>0')
+            S.check_fn(U, 'perspectiveFov%s_%s' % (v, t), spec, pre_fov, mode='real', extra_hyps=trig_pos, mutant=wrong_twin(spec), bounds='fov>0, width>0, height>0, 0<near<far, sin,cos,tan(fov/2)>0')
     return run
 def job_equiv(t, vs):
     def run(S):
@@ -207,7 +213,7 @@ def job_inf(t, vs):
             hand, depth = selected(v).split('_'); k = 2 if depth == 'NO' else 1
             def spec(i, o, hand=hand, k=k):
                 return inf_goals(o[0], i, rv(o[1][0]), hand, k, z3.RealVal(1), z3.RealVal(k))
-            S.check_fn(U, 'infinitePerspective%s_%s' % (v, t), spec, lambda i: fov_ok(i[0][0]) + [i[0][1] > 0, i[0][2] > 0, i[1][0] >= i[0][2]], mode='real', extra_hyps=trig_pos, bounds='aspect>0, near>0, tan(fovy/2)>0; depth d >= near symbolic')
+            S.check_fn(U, 'infinitePerspective%s_%s' % (v, t), spec, mutant=wrong_twin(spec), pre=lambda i: fov_ok(i[0][0]) + [i[0][1] > 0, i[0][2] > 0, i[1][0] >= i[0][2]], mode='real', extra_hyps=trig_pos, bounds='aspect>0, near>0, tan(fovy/2)>0; depth d >= near symbolic')
         if 'tweaked' in vs:
             def spec4(i, o):
                 ep = i[0][3]; return inf_goals(o[0], i, rv(o[1][0]), 'RH', 2, 1 - ep, 2 - ep)
